@@ -100,6 +100,7 @@ class FrameResult:
     def __init__(self, path: Path):
         self.path = path
         self.degenerate = False
+        self.degenerate_exact = True          # the degeneracy test is exact (== 0), not a tolerance
         self.degenerate_tests: List[str] = []
         self.frame: Optional[List[Vc]] = None
         self.origin = None
@@ -418,6 +419,8 @@ class FrameInterp:
             v = self.ev(t.args[0])
             if isinstance(v, Vc) and v.cross:
                 vanished = (outcome != neg)
+                if vanished:
+                    self.res.degenerate_exact = False
         elif isinstance(t, ast.Compare) and len(t.ops) == 1:
             n_arg = _is_norm_call(t.left)
             v = self.ev(n_arg) if n_arg is not None else None
@@ -430,6 +433,9 @@ class FrameInterp:
                     vanished = (outcome != neg)
                 elif isinstance(t.ops[0], (ast.Gt, ast.GtE, ast.NotEq)):
                     vanished = (outcome == neg)
+                zero_rhs = isinstance(t.comparators[0], ast.Constant) and t.comparators[0].value == 0
+                if vanished and not (isinstance(t.ops[0], (ast.Eq, ast.NotEq, ast.LtE, ast.Gt)) and zero_rhs):
+                    self.res.degenerate_exact = False
         if vanished:
             self.res.degenerate = True
             self.res.degenerate_tests.append(norm(test))
